@@ -3,7 +3,7 @@
 Types: int, bool, sym, lint (proper list of ints), fn(k fixed int params [+ rest]) -> int, hof (fn, int) -> int,
 maker int -> fn(1).  Every generated program is filtered through the reference model: programs that raise an error or
 leave the modelled subset are discarded, so what remains is valid and terminating by construction."""
-from .sx import Sym, S, Dot, Vec, show, q
+from .sx import Sym, S, Dot, Vec, RatLit, show, q
 
 
 class FnT:
@@ -44,6 +44,10 @@ class G:
         if d <= 0 or c < 0.18:
             if vs and r.random() < 0.6:
                 return S(r.choice(vs))
+            if r.random() < 0.06:
+                # the same integer written as a ratio that is not in lowest terms (6/3, -8/4), bare or quoted
+                k, m = r.randint(-9, 20), r.randint(2, 6)
+                return r.choice([RatLit(k * m, m), q(RatLit(k * m, m))])
             return r.randint(-9, 20)
         if c < 0.34:
             return self.tick([S(r.choice(["+", "-", "+", "*"])), self.int_(d - 1, env), self.int_(d - 1, env)])
@@ -112,6 +116,8 @@ class G:
         if d <= 0 or c < 0.25:
             if vs and r.random() < 0.6:
                 return S(r.choice(vs))
+            if r.random() < 0.1:
+                return q([(lambda k, m: RatLit(k * m, m))(r.randint(-5, 9), r.randint(2, 5)) if r.random() < 0.5 else r.randint(-5, 9) for _ in range(r.randint(1, 4))])
             return q([r.randint(-5, 9) for _ in range(r.randint(0, 4))])
         if c < 0.45:
             return [S("list")] + [self.tick(self.int_(d - 1, env)) for _ in range(r.randint(0, 3))]
